@@ -6,9 +6,13 @@ bookkeeping), `libPutHeader` (byte layout), `libGetHeader` (decoder and index se
 (with an explicit file content, so that a short `fread` is visible).
 
 Bytes are `Nat`s below 256.  `HInt` = 2 bytes, `SInt` = 4 bytes, both little endian
-(`cport.h`: `UNBYTE2/UNBYTE4`), `Byte` = 1 byte.  `FILE_GET_CHARS` ignores the count returned
-by `fread`: the bytes of the destination that the file does not supply keep whatever the
-allocation contained; that content is the explicit parameter `junk`. -/
+(`cport.h`: `UNBYTE2/UNBYTE4`), `Byte` = 1 byte.  The reader is the one of the repaired tree
+(commit "library reader ignored short reads, its own header check and section bounds"): the
+`fread` counts are tested, `Index[]` is set up from the `numSect` entries in use, the verdict of
+`libChkHeader` is honoured and the end of the last section must not lie beyond the end of the
+file; any failure is a diagnostic followed by a fatal error (`libBadFile`).  The bytes a short
+`fread` leaves untouched in its destination are the explicit parameter `junk`; they no longer
+reach any decoder. -/
 namespace AldorVerif.LibHdr
 
 /-! ## constants (printed by the C driver on `consts` and compared on every run) -/
@@ -77,8 +81,8 @@ def getSects : Nat → List Nat → List Sect
       ⟨n % 256, getSInt o0 o1 o2 o3, getSInt l0 l1 l2 l3⟩ :: getSects k rest
   | k + 1, _ => Sect.none :: getSects k []
 
-/-- "Set up the section indices": for i = 0 .. LIB_INDEX_LIMIT-1 (all of them, not only the
-first `numSect`): `if (n < LIB_NAME_LIMIT) Index[n] = i`. -/
+/-- "Set up the section indices (only of the sections in use)": for i = 0 .. min(LIB_INDEX_LIMIT,
+numSect)-1: `if (n < LIB_NAME_LIMIT) Index[n] = i` (the caller passes the first `numSect` entries). -/
 def setupIndex : List Sect → Nat → (Nat → Nat) → (Nat → Nat)
   | [], _, f => f
   | s :: ss, i, f => setupIndex ss (i + 1) (if s.name < nameLimit then setIndex f s.name i else f)
@@ -89,7 +93,8 @@ def decode (buf : List Nat) : Hdr :=
   | m0 :: m1 :: a0 :: a1 :: a2 :: a3 :: b0 :: b1 :: b2 :: b3 :: n0 :: n1 :: rest =>
     let ss := getSects nameLimit rest
     { magic := getHInt m0 m1, verMajor := getSInt a0 a1 a2 a3, verMinor := getSInt b0 b1 b2 b3,
-      numSect := getHInt n0 n1, sects := ss, index := setupIndex ss 0 (fun _ => nameLimit) }
+      numSect := getHInt n0 n1, sects := ss,
+      index := setupIndex (ss.take (getHInt n0 n1)) 0 (fun _ => nameLimit) }
   | _ => newHeader
 
 /-- what `fread(s, 1, cc, file)` leaves in a `cc`-byte destination whose previous content is
@@ -101,9 +106,8 @@ def readBuf (file : List Nat) (pos cc : Nat) (junk : List Nat) : List Nat :=
 /-- number of bytes `fread` really delivered (the count the C code throws away) -/
 def readCount (file : List Nat) (pos cc : Nat) : Nat := ((file.drop pos).take cc).length
 
-/-- `libGetHeader` on a library starting at offset 0 of `file`.  (Its call of `libChkHeader`
-has no effect on the result: the value is discarded.) -/
-def getHeader (file junk : List Nat) : Hdr := decode (readBuf file 0 hdrSize junk)
+/-- the header as parsed by `libGetHeader` before any test -/
+def readHeader (file junk : List Nat) : Hdr := decode (readBuf file 0 hdrSize junk)
 
 /-! ## `libChkHeader` -/
 inductive Verdict
@@ -112,7 +116,7 @@ inductive Verdict
   | badVersion        -- ALDOR_F_LibBadVersion, fatal
   | badNumSect        -- ALDOR_E_LibBadNumSect
   | badSectName       -- ALDOR_E_LibBadSectName
-  | bugIndex          -- bug("Index[Name[i]] != i")
+  | dupSect           -- ALDOR_E_LibSectDup (Index[Name[i]] != i)
   | badSectHdr        -- ALDOR_E_LibBadSectHdr
 deriving Repr, DecidableEq
 
@@ -121,7 +125,7 @@ def chkNames (h : Hdr) : List Nat → Verdict
   | [] => .ok
   | i :: is =>
     if (h.sectAt i).name ≥ nameLimit then .badSectName
-    else if h.index (h.sectAt i).name ≠ i then .bugIndex
+    else if h.index (h.sectAt i).name ≠ i then .dupSect
     else chkNames h is
 
 /-- "Check remaining section headers", for the indices in the list (each ≥ 1) -/
@@ -161,50 +165,63 @@ def build : Hdr → List (Nat × Nat) → Option Hdr
     | some h' => build h' r
     | none => none
 
+/-! ## `libGetHeader` (library at offset 0 of a stand-alone file) -/
+
+/-- end of the last section in use (`libHdrSize` when there is none) -/
+def endOf (h : Hdr) : Nat :=
+  if h.numSect = 0 then hdrSize
+  else (h.sectAt (h.numSect - 1)).offset + (h.sectAt (h.numSect - 1)).length
+
+/-- why `libBadFile` stopped the compilation -/
+inductive Refusal
+  | shortRead                 -- fread delivered fewer than libHdrSize bytes (ALDOR_E_LibBadSectHdr)
+  | verdict (v : Verdict)     -- libChkHeader said no (its own diagnostic)
+  | outOfBounds               -- end of last section > file size (ALDOR_E_LibSectOffset)
+deriving Repr, DecidableEq
+
+def getHeaderE (file junk : List Nat) : Except Refusal Hdr :=
+  if readCount file 0 hdrSize = hdrSize then
+    let h := readHeader file junk
+    if chk h = .ok then
+      if endOf h ≤ file.length then .ok h else .error .outOfBounds
+    else .error (.verdict (chk h))
+  else .error .shortRead
+
+/-- `libGetHeader`: `none` = diagnostic + fatal error, nothing of the file is used -/
+def getHeader (file junk : List Nat) : Option Hdr :=
+  match getHeaderE file junk with
+  | .ok h => some h
+  | .error _ => none
+
+def refusal (file junk : List Nat) : Option Refusal :=
+  match getHeaderE file junk with
+  | .ok _ => none
+  | .error r => some r
+
 /-! ## `libHasSection`, `libGetSection` -/
 def sectOffset (h : Hdr) (name : Nat) : Nat := (h.sectAt (h.index name)).offset
 def sectLength (h : Hdr) (name : Nat) : Nat := (h.sectAt (h.index name)).length
 def hasSection (h : Hdr) (name : Nat) : Bool := sectOffset h name != 0
 
 structure SectRead where
-  data : List Nat      -- the buffer handed to the decoders (always `want` bytes long)
+  data : List Nat      -- the buffer handed to the decoders (`want` bytes)
   want : Nat           -- the length the header announced
-  got  : Nat           -- the bytes the file really supplied
+  got  : Nat           -- the bytes the file supplied
 deriving Repr, DecidableEq
 
-/-- `libGetSection(lib, name, stat)`: seek, allocate `cc`, read, never look at the count. -/
-def getSection (file : List Nat) (h : Hdr) (name : Nat) (junk : List Nat) : Option SectRead :=
+/-- the raw read: seek, allocate `cc`, `fread` -/
+def readSection (file : List Nat) (h : Hdr) (name : Nat) (junk : List Nat) : SectRead :=
+  let cc := sectLength h name
+  ⟨readBuf file (sectOffset h name) cc junk, cc, readCount file (sectOffset h name) cc⟩
+
+/-- `libGetSection(lib, name, stat)`: `some none` = no such section (returns 0),
+`none` = short read: diagnostic + fatal error, `some (some r)` = the section. -/
+def getSection (file : List Nat) (h : Hdr) (name : Nat) (junk : List Nat) : Option (Option SectRead) :=
   if hasSection h name then
-    let cc := sectLength h name
-    some ⟨readBuf file (sectOffset h name) cc junk, cc, readCount file (sectOffset h name) cc⟩
-  else none
-
-/-! ## the repaired reader (the proposed `fix:` to `lib.c`; not the code as it stands)
-
-`libGetHeader` with: the `fread` count checked, `Index[]` set up from the `numSect` entries in
-use only, the verdict of `libChkHeader` honoured (a duplicate name is an error instead of a
-`bug`), and the end of the last section compared with the file size (equal for a stand-alone
-file, which is what is modelled here: library at offset 0). `none` = diagnostic + fatal error. -/
-def reindex (h0 : Hdr) : Hdr :=
-  { h0 with index := setupIndex (h0.sects.take h0.numSect) 0 (fun _ => nameLimit) }
-
-def endOf (h : Hdr) : Nat :=
-  if h.numSect = 0 then hdrSize
-  else (h.sectAt (h.numSect - 1)).offset + (h.sectAt (h.numSect - 1)).length
-
-def getHeaderChecked (file junk : List Nat) : Option Hdr :=
-  if readCount file 0 hdrSize = hdrSize then
-    let h := reindex (decode (readBuf file 0 hdrSize junk))
-    if chk h = .ok then
-      if endOf h = file.length then some h else none
+    if readCount file (sectOffset h name) (sectLength h name) = sectLength h name then
+      some (some (readSection file h name junk))
     else none
-  else none
-
-/-- `libGetSection` as repaired: a short read is fatal -/
-def getSectionChecked (file : List Nat) (h : Hdr) (name : Nat) (junk : List Nat) : Option (Option SectRead) :=
-  match getSection file h name junk with
-  | none => some none
-  | some r => if r.got ≠ r.want then none else some (some r)
+  else some none
 
 /-! ## truncation classes -/
 inductive TruncClass
